@@ -287,6 +287,8 @@ class ForwardScheduler(IScheduler):
                     _task.start = self.__get_resource_nearest_available_date(
                         resource, resource_usage, _task.start, _task
                     )
+                    if _task.end is not None:
+                        _task.start = min(_task.start, _task.end)
                 else:
                     children_starts = [t.start for t in _task.children if t.start is not None]
                     if len(children_starts) == 0:
@@ -308,12 +310,12 @@ class ForwardScheduler(IScheduler):
             if _task.end is None:
                 if is_leaf:
                     left_hours = max(_task.estimate - _task.spent, 0)
-                    start = max(_task.start, datetime.now())
+                    start = max(_task.start, datetime.now(), self.__start)
                     _task.end = max(
                         self.__shift_by_resource_usage_and_calendar(
                             resource, resource_usage, start, _task, left_hours
                         ),
-                        datetime.now()
+                        _task.start
                     )
                 else:
                     _task.end = max([t.end for t in _task.children if t.end is not None])
